@@ -326,8 +326,11 @@ def load_known(pid):
 
 
 def write_evidence(pid, ev):
-    os.makedirs(os.path.join(ROOT, 'evidence'), exist_ok=True)
-    p = os.path.join(ROOT, 'evidence', '%s.json' % pid)
+    # VERIF_EVIDENCE_DIR: used by selftest/seedtest/mutation_matrix so that runs against
+    # deliberately broken trees do not overwrite the evidence of the unchanged tree
+    d = os.environ.get('VERIF_EVIDENCE_DIR') or os.path.join(ROOT, 'evidence')
+    os.makedirs(d, exist_ok=True)
+    p = os.path.join(d, '%s.json' % pid)
     with open(p, 'w') as f:
         json.dump(ev, f, indent=1, sort_keys=True)
         f.write('\n')
